@@ -91,7 +91,7 @@ fn handle(line: &str) -> String {
         }
         "best_encoding" => format!("{}", crate::encode::best_encoding(&unhex(a[1])) as usize),
         "version_get" => {
-            let r = Version::get(mode(a[1]), ecl(a[2]), a[3].parse::<usize>().unwrap());
+            let r = Version::get(mode(a[1]), ecl(a[2]), a[3].parse::<usize>().unwrap() as _);
             r.map(|v| (v as usize).to_string()).unwrap_or("-".into())
         }
         "place" => {
